@@ -43,7 +43,9 @@ const (
 
 type ArgRef struct {
 	Index   int
-	AsToken bool // $T<i> instead of $<i>
+	AsToken bool   // $T<i> instead of $<i>
+	Const   string // if non-empty: a Go string literal written verbatim into the action (may span lines) ...
+	Val     string // ... and the string value it denotes
 }
 
 type Action struct {
@@ -103,7 +105,10 @@ func S(syms ...string) []Sym {
 }
 
 func A(i int) ArgRef { return ArgRef{Index: i} }
-func T(i int) ArgRef { return ArgRef{Index: i, AsToken: true} }
+
+// K is a constant string argument: lit is Go source (e.g. a raw string literal), val its value.
+func K(lit, val string) ArgRef { return ArgRef{Const: lit, Val: val} }
+func T(i int) ArgRef           { return ArgRef{Index: i, AsToken: true} }
 
 func Call(args ...ArgRef) Action    { return Action{Kind: ActCall, Args: args} }
 func CallCtx(args ...ArgRef) Action { return Action{Kind: ActCall, Args: args, Ctx: true} }
@@ -297,9 +302,12 @@ func (a *Alt) actionText() string {
 		}
 		args = append(args, strconv.Itoa(a.ID))
 		for _, r := range a.Action.Args {
-			if r.AsToken {
+			switch {
+			case r.Const != "":
+				args = append(args, r.Const)
+			case r.AsToken:
 				args = append(args, "$T"+strconv.Itoa(r.Index))
-			} else {
+			default:
 				args = append(args, "$"+strconv.Itoa(r.Index))
 			}
 		}
